@@ -7,6 +7,7 @@ signer with its own construction of `m`). The theorems hold for every state, nod
 locator, blob and signer.
 -/
 import TeosVerif.Lemmas.Tower
+import TeosVerif.Lemmas.TowerJust
 
 namespace Teos.C06
 open Teos
@@ -166,5 +167,80 @@ example :
     authCheck s none = .error .authFail ∧
     authCheck (gkConnect cfg s 110) (some 7) = .error (.expired 110) := by
   exact ⟨⟨_, rfl⟩, rfl, rfl, rfl⟩
+
+/-! ### whole histories -/
+
+/-- the operation is an `add_appointment` whose signature recovered to the registered, non-expired user
+`k.2`, for locator `k.1` and blob `b`, and the tower answered it with a receipt -/
+def AuthenticatedAdd (s : Tower) (node : Node) (op : Op) (k : Uuid) (b : Blob) : Prop :=
+  ∃ sg t u ui, op = .add sg k.1 b t u ∧ authCheck s sg = .ok (k.2, ui) ∧
+    ∃ st us av ex, (addAppointment s node sg k.1 b t u).2.1 = .accepted st us av ex
+
+theorem acceptedBy_authenticated (s : Tower) (node : Node) (op : Op) (k : Uuid) (b : Blob)
+    (h : (k, b) ∈ acceptedBy s node op) : AuthenticatedAdd s node op k b := by
+  cases op with
+  | add sg l blob t u =>
+    cases hauth : authCheck s sg with
+    | error e => simp [acceptedBy, hauth] at h
+    | ok pr =>
+      obtain ⟨usr, ui⟩ := pr
+      cases hacc : (addAppointment s node sg l blob t u).2.1 with
+      | accepted st us av ex =>
+        simp only [acceptedBy, hauth, hacc, List.mem_singleton, Prod.mk.injEq] at h
+        obtain ⟨rfl, rfl⟩ := h
+        exact ⟨sg, t, u, ui, rfl, hauth, st, us, av, ex, hacc⟩
+      | _ => simp [acceptedBy, hauth, hacc] at h
+  | register _ => cases h
+  | get _ _ => cases h
+  | sub _ => cases h
+  | connect _ _ _ => cases h
+  | disconnect _ _ => cases h
+
+/-- where an entry of the ghost record of accepted appointments comes from -/
+theorem accepted_origin (cfg : Cfg) : ∀ (hist : List (Node × Op)) (sg : Tower × Ghost) (k : Uuid) (b : Blob),
+    (k, b) ∈ (runG cfg sg hist).2.accepted →
+    (k, b) ∈ sg.2.accepted ∨
+    ∃ pre node op post, hist = pre ++ (node, op) :: post ∧ (k, b) ∈ acceptedBy (runG cfg sg pre).1 node op := by
+  intro hist
+  induction hist with
+  | nil => intro sg k b h; exact Or.inl h
+  | cons x rest ih =>
+    intro sg k b h
+    unfold runG at h
+    simp only [List.foldl_cons] at h
+    rcases ih (stepG cfg sg x) k b h with h1 | ⟨pre, node, op, post, e, hm⟩
+    · unfold stepG at h1
+      simp only at h1
+      rcases List.mem_append.1 h1 with h2 | h2
+      · exact Or.inl h2
+      · exact Or.inr ⟨[], x.1, x.2, rest, rfl, h2⟩
+    · refine Or.inr ⟨x :: pre, node, op, post, by rw [e]; rfl, ?_⟩
+      unfold runG
+      simp only [List.foldl_cons]
+      exact hm
+
+/-- **every_held_appointment_was_submitted_by_its_owner**: after ANY history, every appointment the tower
+holds under a user's key got there through an `add_appointment` request, somewhere in that history, whose
+signature recovered to exactly that user — registered and not expired at that moment — for exactly that
+locator and that blob: no request by one user, and nothing the chain does, ever creates or replaces
+another user's appointment. -/
+theorem every_held_appointment_was_submitted_by_its_owner (cfg : Cfg) (height : Nat)
+    (blocks : List (Nat × List TxId)) (hist : List (Node × Op)) (k : Uuid) (a : Appt) :
+    let start : Tower × Ghost := (boot Db.empty height blocks, { seen := blocks.flatMap (·.2), accepted := [], sent := [] })
+    (runG cfg start hist).1.db.appts k = some a →
+    ∃ pre node op post, hist = pre ++ (node, op) :: post ∧
+      AuthenticatedAdd (runG cfg start pre).1 node op k a.blob := by
+  intro start h
+  have hinv : GInv start := by
+    refine ⟨just_boot _ _ _ _ (fun k t h => by cases h) ?_, ?_, fun tx h => by cases h⟩
+    · intro b hb x hx
+      exact List.mem_flatMap.2 ⟨b, hb, hx⟩
+    · intro k b h
+      obtain ⟨a, ha, _⟩ := h
+      cases ha
+  have hacc := (ginv_runG cfg hist start hinv).held k a.blob ⟨a, h, rfl⟩
+  rcases accepted_origin cfg hist start k a.blob hacc with h0 | ⟨pre, node, op, post, e, hm⟩
+  · cases h0
+  · exact ⟨pre, node, op, post, e, acceptedBy_authenticated _ node op k a.blob hm⟩
 
 end Teos.C06
